@@ -256,7 +256,11 @@ func (mb *markerBackend) lookup(req []byte) []byte {
 	return nil
 }
 
-func (mb *markerBackend) sawUp(up string) bool { mb.mu.Lock(); defer mb.mu.Unlock(); return mb.seen[up] }
+func (mb *markerBackend) sawUp(up string) bool {
+	mb.mu.Lock()
+	defer mb.mu.Unlock()
+	return mb.seen[up]
+}
 
 func (mb *markerBackend) serveTCP(_ *h.TCPBackend, c net.Conn) {
 	_ = c.SetDeadline(time.Now().Add(60 * time.Second))
@@ -326,52 +330,72 @@ func latticeCase(c *h.Case) {
 	legs = append(legs, legVis)
 
 	// ---- endpoints
-	ports := pa.Block(8)
-	pRelayP, pRelayV, pTCP, pUDP, pVis, pBeTCP, pBeHTTP, pBeUDP := ports[0], ports[1], ports[2], ports[3], ports[4], ports[5], ports[6], ports[7]
 	size := l.PayloadKiB * 1024
 	mb := &markerBackend{replies: map[string][]byte{}, seen: map[string]bool{}}
 	for _, lg := range legs[:4] {
 		mb.replies[lg.Up] = buildPayload(rng, lg.Down, size)
 	}
-	beTCP, err := h.StartTCPBackend(pBeTCP, mb.serveTCP)
-	if err != nil {
-		run.Inconclusive("lattice: backend port busy")
+	udpDown := append([]byte("D:"), buildPayload(rng, legUDP.Down, 900)[:900]...)
+	udpDown = append(udpDown, legUDP.Down...)
+	var (
+		pRelayP, pRelayV, pTCP, pUDP, pVis, pBeTCP, pBeHTTP, pBeUDP int
+		beTCP                                                       *h.TCPBackend
+		beHTTP                                                      *http.Server
+		beUDP                                                       *h.UDPBackend
+		wireP, wireV                                                *wire
+	)
+	opened := false
+	for try := 0; try < 4 && !opened; try++ { // another process may grab a port between allocation and bind
+		ports := pa.Block(8)
+		pRelayP, pRelayV, pTCP, pUDP, pVis, pBeTCP, pBeHTTP, pBeUDP = ports[0], ports[1], ports[2], ports[3], ports[4], ports[5], ports[6], ports[7]
+		var closers []func()
+		fail := func() {
+			for _, f := range closers {
+				f()
+			}
+		}
+		var err error
+		if beTCP, err = h.StartTCPBackend(pBeTCP, mb.serveTCP); err != nil {
+			continue
+		}
+		closers = append(closers, beTCP.Close)
+		ln, err := net.Listen("tcp", fmt.Sprintf("127.0.0.1:%d", pBeHTTP))
+		if err != nil {
+			fail()
+			continue
+		}
+		beHTTP = &http.Server{Handler: http.HandlerFunc(mb.serveHTTP), ReadHeaderTimeout: 30 * time.Second}
+		go beHTTP.Serve(ln)
+		closers = append(closers, func() { beHTTP.Close() })
+		if beUDP, err = h.StartUDPBackend(pBeUDP, 4096, func(p []byte) [][]byte {
+			if bytes.Contains(p, []byte(legUDP.Up)) {
+				return [][]byte{udpDown}
+			}
+			return nil
+		}); err != nil {
+			fail()
+			continue
+		}
+		closers = append(closers, beUDP.Close)
+		if wireP, err = newWire(l.Protocol, pRelayP, ps); err != nil {
+			fail()
+			continue
+		}
+		closers = append(closers, wireP.close)
+		if wireV, err = newWire(l.Protocol, pRelayV, ps); err != nil {
+			fail()
+			continue
+		}
+		opened = true
+	}
+	if !opened {
+		run.Inconclusive("lattice: endpoint ports busy")
 		return
 	}
 	defer beTCP.Close()
-	ln, err := net.Listen("tcp", fmt.Sprintf("127.0.0.1:%d", pBeHTTP))
-	if err != nil {
-		run.Inconclusive("lattice: backend port busy")
-		return
-	}
-	beHTTP := &http.Server{Handler: http.HandlerFunc(mb.serveHTTP), ReadHeaderTimeout: 30 * time.Second}
-	go beHTTP.Serve(ln)
 	defer beHTTP.Close()
-	udpDown := append([]byte("D:"), buildPayload(rng, legUDP.Down, 900)[:900]...)
-	udpDown = append(udpDown, legUDP.Down...)
-	beUDP, err := h.StartUDPBackend(pBeUDP, 4096, func(p []byte) [][]byte {
-		if bytes.Contains(p, []byte(legUDP.Up)) {
-			return [][]byte{udpDown}
-		}
-		return nil
-	})
-	if err != nil {
-		run.Inconclusive("lattice: backend port busy")
-		return
-	}
 	defer beUDP.Close()
-
-	wireP, err := newWire(l.Protocol, pRelayP, ps)
-	if err != nil {
-		run.Inconclusive("lattice: relay port busy")
-		return
-	}
 	defer wireP.close()
-	wireV, err := newWire(l.Protocol, pRelayV, ps)
-	if err != nil {
-		run.Inconclusive("lattice: relay port busy")
-		return
-	}
 	defer wireV.close()
 
 	// ---- the two real clients
@@ -446,11 +470,6 @@ func latticeCase(c *h.Case) {
 	runIDs, _ := ps.sessionsOfUser(userP)
 	rv, _ := ps.sessionsOfUser(userV)
 	runIDs = append(runIDs, rv...)
-	if os.Getenv("C05_DIAG") != "" {
-		for _, id := range runIDs {
-			diagRunIDs.Store(id, fmt.Sprintf("case %d relays %d,%d cfg %s", c.Idx, pRelayP, pRelayV, l.sig()))
-		}
-	}
 
 	// ---- traffic
 	const tmo = 30 * time.Second
@@ -638,8 +657,6 @@ func latticeCase(c *h.Case) {
 		run.Sample(map[string]any{"kind": "lattice", "cfg": l, "legs_flowed": nflow, "capture_bytes": len(capP) + len(capV)})
 	}
 }
-
-var diagRunIDs sync.Map
 
 // retry: the owner frpc may still be processing the registration replies when the server already
 // lists the proxies; a first user connection can then be dropped by the client.
